@@ -84,9 +84,9 @@ Print Assumptions C04_dropping_a_drain_restores_prefix_and_suffix.
 Theorem C04_every_history_refines_the_list_model :
   forall cfg, cfg_ok cfg -> needs_drop cfg = true ->
   forall v os s l,
-  vabs cfg s v l -> Forall rop_ok os ->
+  vacc cfg s v l -> Forall rop_ok os ->
   post (run_rops cfg (ncap_of cfg) v os s)
-       (fun _ s' => exists l', rsteps os l l' /\ vabs cfg s' v l')
+       (fun _ s' => exists l', rsteps os l l' /\ vacc cfg s' v l')
        (fun _ => False).
 Proof. intros cfg Hc Hd. exact (history_refines_list_spec cfg (ncap_of cfg) Hc (ncap_policy cfg) Hd). Qed.
 
@@ -100,10 +100,10 @@ Example C04_refinement_hypotheses_satisfiable :
   let s := {| heap := []; vecs := [Some Sentinel]; iters := []; ledger := fun _ => Fresh; payload := fun _ => 0;
               next_elem := 0; drop_panics := [1; 3]; clone_panics := []; alloc_fail := None;
               alloc_limit := 1073741824; events := [] |} in
-  cfg_ok cfg /\ vabs cfg s 0 [] /\
+  cfg_ok cfg /\ vacc cfg s 0 [] /\
   Forall rop_ok [RPush 5; RInsert 0 6; RInsert 7 8; RCap CShrinkToFit; RSwapRemove 0; RPop; RTruncate 0; RRemove 3].
 Proof.
-  split; [repeat split; reflexivity|]. split; [left; split; reflexivity|].
+  split; [repeat split; reflexivity|]. split; [split; [left; split; reflexivity|split; [simpl; lia|simpl; intros; lia]]|].
   repeat constructor; simpl; lia.
 Qed.
 
@@ -115,7 +115,8 @@ Theorem C04_truncate_under_panicking_destructors :
   forall cfg, cfg_ok cfg -> needs_drop cfg = true -> forall s v l n,
   vabs cfg s v l -> 0 <= n ->
   let Q := fun s' => vabs cfg s' v (firstn (Z.to_nat n) l) /\
-                     forall e, In e (skipn (Z.to_nat n) l) -> ledger s' e = Dropped in
+                     (forall e, In e (skipn (Z.to_nat n) l) -> ledger s' e = Dropped) /\
+                     only_changes s s' (skipn (Z.to_nat n) l) in
   post (truncate cfg v n s) (fun _ s' => Q s') Q.
 Proof. exact truncate_abs. Qed.
 
@@ -124,7 +125,7 @@ Theorem C04_refused_insert_changes_nothing :
   forall cfg ncap, cfg_ok cfg -> policy_ok ncap -> needs_drop cfg = true -> forall s v l idx e,
   vabs cfg s v l -> ledger s e = Live -> ~ In e l -> e < next_elem s -> 0 <= idx ->
   post (insert cfg ncap v idx e s)
-    (fun _ s' => idx <= Z.of_nat (List.length l) /\ vabs cfg s' v (list_insert (Z.to_nat idx) e l))
-    (fun s' => vabs cfg s' v l).
+    (fun _ s' => idx <= Z.of_nat (List.length l) /\ vabs cfg s' v (list_insert (Z.to_nat idx) e l) /\ only_changes s s' [])
+    (fun s' => vabs cfg s' v l /\ ledger s' e = Dropped /\ only_changes s s' [e]).
 Proof. exact insert_abs. Qed.
 Print Assumptions C04_truncate_under_panicking_destructors.
